@@ -17,6 +17,19 @@ def helper_processors(ctx):
     from sa.pattern import match_expr, match_stmt
     from sa.deps import names_in, pseudo
     from sa.paths import RAISE
+    # the per-row contract is applied by the loops of the base class (yield self.process_row(row) for every row of every resource):
+    # a helper that brings stream-level methods of its own replaces those loops - and with them the contract - for its callables
+    dsp_ = repo.cls('dataflows.base.datastream_processor:DataStreamProcessor')
+    for cq_, allowed_ in (('dataflows.helpers.row_processor:row_processor', {'__init__', 'process_row'}),
+                          ('dataflows.helpers.rows_processor:rows_processor', {'__init__', 'process_resource'}),
+                          ('dataflows.helpers.resources_processor:resources_processor', {'__init__', 'process_resources'}),
+                          ('dataflows.helpers.datapackage_processor:datapackage_processor', {'__init__', 'process_datapackage', 'process_resources'})):
+        hc_ = repo.cls(cq_)
+        extra_ = sorted(set(hc_.methods) & {'process_row', 'process_resource', 'process_resources', 'process_datapackage', '_process',
+                                            'get_iterator', 'safe_process', 'process', 'results'} - allowed_)
+        run.check(not extra_, 'HLP', hc_.where, hc_.qualname, '%s overrides only %s' % (hc_.name, sorted(allowed_ - {'__init__'})),
+                  '%s overrides %s: the loop of the base class that applies the callable item by item is replaced for every callable '
+                  'wrapped in this helper' % (hc_.name, ', '.join(extra_)))
     rp = ctx.N(repo.cls('dataflows.helpers.row_processor:row_processor').methods['process_row'])
     row = rp.params[1]
     paths = Enumerator(where=rp.qualname).paths(rp.node.body)
